@@ -4,7 +4,7 @@ the first-run records."""
 import glob, json, os, re
 HERE = os.path.dirname(os.path.dirname(os.path.abspath(__file__)))
 first = {}
-for f, wave in (('.scratch/results_round1.jsonl', ''), ('.scratch/results_w2_first.jsonl', 'w2'), ('.scratch/results_w3_first.jsonl', 'w3'), ('.scratch/results_w4_first.jsonl', 'w4'), ('.scratch/results_w5_first.jsonl', 'w5'), ('.scratch/results_w6_first.jsonl', 'w6'), ('.scratch/results_w7_first.jsonl', 'w7')):
+for f, wave in (('.scratch/results_round1.jsonl', ''), ('.scratch/results_w2_first.jsonl', 'w2'), ('.scratch/results_w3_first.jsonl', 'w3'), ('.scratch/results_w4_first.jsonl', 'w4'), ('.scratch/results_w5_first.jsonl', 'w5'), ('.scratch/results_w6_first.jsonl', 'w6'), ('.scratch/results_w7_first.jsonl', 'w7'), ('.scratch/results_w8_first.jsonl', 'w8')):
     p = os.path.join(HERE, f)
     if os.path.exists(p):
         for l in open(p):
@@ -15,7 +15,7 @@ for f, wave in (('.scratch/results_round1.jsonl', ''), ('.scratch/results_w2_fir
             if c: first['%s-%s%s' % (r['pid'], wave, x)] = {0: 'missed', 1: 'caught', 3: 'inconclusive'}.get(c['rc'], str(c['rc']))
 FIX = json.load(open(os.path.join(HERE, 'tools', 'seeded_notes.json')))
 first.update(FIX.get('_first', {}))
-W = {w: [sum(1 for k, v in first.items() if ('-' + w) in k and v.startswith('caught')), sum(1 for k in first if ('-' + w) in k)] for w in ('w3', 'w4', 'w5', 'w6', 'w7')}
+W = {w: [sum(1 for k, v in first.items() if ('-' + w) in k and v.startswith('caught')), sum(1 for k in first if ('-' + w) in k)] for w in ('w3', 'w4', 'w5', 'w6', 'w7', 'w8')}
 rows = []
 for mp in sorted(glob.glob(os.path.join(HERE, 'seeded', '*', 'meta.json'))):
     m = json.load(open(mp))
@@ -37,7 +37,7 @@ from /verif), every one confirmed by `tools/seedtest.py` in a scratch worktree: 
 tests still pass with it, the author's demonstration exits 0 without and non-zero with it.  Kept under `seeded/<id>/` (patch.diff,
 demo.py, the author's README.md, meta.json).  "first run" is the verdict of the property's own quick check as it was when the change
 arrived (before anything was strengthened in response); "now" lists the checks that report a VIOLATION on the patched tree at the
-final state.  `w2`..`w7` = later waves (w3 to w7 were run *held out*: the checks were frozen and committed before the changes were
+final state.  `w2`..`w8` = later waves (w3 to w8 were run *held out*: the checks were frozen and committed before the changes were
 written), whose authors were told what the earlier waves had tried and asked for something different.
 
 | id | what the change does (author's words, truncated) | first run | now caught by | witness monitors | what was added after a miss |
@@ -74,8 +74,13 @@ through `update()` at once, sponge calls inside a duplex session, refused calls 
 shorter sequence values in vector assignment, TDEA bundles with equal sub-keys under the modes, copies of cipher objects,
 caller-assembled CRC tables, and *workers with a past*: odd-numbered workers first use other parts of crysp, unusual
 configurations first (`core.process_past`), so that state one module leaves behind for another (an IV table cached under the
-digest length only) meets the property's workload in both orders.  The final state catches all %d kept changes.
-''' % (len(rows), '\n'.join(rows), W['w3'][0], W['w3'][1], W['w4'][0], W['w4'][1], W['w5'][0] , W['w5'][1] - 1, W['w6'][0], W['w6'][1] - 1, W['w7'][0], W['w7'][1], len(rows))
+digest length only) meets the property's workload in both orders.  Wave 8 (authors pointed at the clauses of each property that
+earlier waves had touched least): first run %d/%d caught (one further change made an existing randomized test fail and was not
+kept); the misses added refused pieces inside a stream, non-bytes AES blocks, a cold-interpreter probe of the module-level
+component functions, the customary Skein output sizes, `(stale buffer, bitlen=0)` pieces, totals of exactly 64 KiB, the CRC-32
+polynomial in wider registers, long rewinds, operator results as new vectors, equal couples, and MD6 in its default and
+sequential configurations inside C10.  The final state catches all %d kept changes.
+''' % (len(rows), '\n'.join(rows), W['w3'][0], W['w3'][1], W['w4'][0], W['w4'][1], W['w5'][0] , W['w5'][1] - 1, W['w6'][0], W['w6'][1] - 1, W['w7'][0], W['w7'][1], W['w8'][0] - 1, W['w8'][1] - 1, len(rows))
 p = os.path.join(HERE, 'DESIGN.md')
 s = open(p).read()
 if '## 15. Seeded' in s:
